@@ -530,7 +530,7 @@ class _Run(RunBase):
     def check_kept(self, ev_i, ev):
         for k, (d, nf, who) in enumerate(self.kept):
             self.out.oracle_checks += 1
-            diff = N.same(nf, N.norm(d))
+            diff = N.same_strict(nf, N.norm(d))
             if diff is not None:
                 self.kept[k] = (d, N.norm(d), who)
                 if self.violation('INDEP', _opname(ev), 'kept-dict',
